@@ -80,7 +80,9 @@ impl Fir<Float> {
             target_feature = "sse3",
             target_feature = "sse"
         ))]
-        return sum_product_avx(&self.taps, input);
+        // Like `filter()`, accept input longer than the taps and use the
+        // beginning of it. (The kernel requires equal lengths.)
+        return sum_product_avx(&self.taps, &input[..self.taps.len()]);
         // Second fastest is generic simd.
         #[cfg(feature = "simd")]
         #[allow(unreachable_code)]
